@@ -239,3 +239,51 @@ LDT = {LDT_FOR_EPOCH_SECONDS: ldt_for_epoch_seconds, LDT_TO_EPOCH_SECONDS: ldt_t
 def install_ldt(eng):
     eng.intercepts.update(LDT)
     return sorted(LDT)
+
+
+# ---- class-based contract for call histories (C08/C09) ------------------------------------------------------
+
+BELOW_HI = cal.epoch_seconds(1997)       # instants before 1997-01-01: year <= 1996 (zone data starts 2000)
+ABOVE_LO = cal.epoch_seconds(2052)       # instants from 2052-01-01: year >= 2052 (zone data ends 2050)
+
+
+def classes_contract(classes):
+    """classes: list of (lo, hi, year | 'below' | 'above').  The class of each call is the one whose range the
+    path condition implies (the harness assumes lo <= t < hi right before the call)."""
+    per_year = {}
+
+    def f(eng, st, args):
+        t = args[0]
+        if _is_conc(t):
+            return NotImplemented
+        ck = ('ldfes', t.get_id())
+        hit = st.user.get(ck)
+        if hit is not None:
+            return hit[0]
+        for (lo, hi, kind) in classes:
+            if eng.ctx.check(st.pc, z3.Not(z3.And(t >= lo, t < hi))) == 'unsat':
+                if kind in ('below', 'above'):
+                    yt, m, d = eng.fresh('ld_yt', 8), eng.fresh('ld_m', 8), eng.fresh('ld_d', 8)
+                    rng = z3.And(z3.UGE(m, 1), z3.ULE(m, 12), z3.UGE(d, 1), z3.ULE(d, 31))
+                    if kind == 'below':
+                        st.pc.append(z3.And(rng, yt >= -69, yt <= -4))
+                    else:
+                        st.pc.append(z3.And(rng, yt >= 52, yt <= 68))
+                    r = z3.Concat(d, m, yt)
+                    st.user[ck] = (r, t)
+                    st.user['contracts_used'] = st.user.get('contracts_used', 0) + 1
+                    return r
+                key = (kind, lo, hi)
+                if key not in per_year:
+                    per_year[key] = year_contract(kind, lo, hi)
+                return per_year[key](eng, st, args)
+        raise RuntimeError('classes_contract: no class covers this call')
+    return f
+
+
+def range_lemma_negation(yt, m, d, kind):
+    """Negation of the out-of-range class post-condition over the observed fields of the real function."""
+    rng = z3.And(z3.UGE(m, 1), z3.ULE(m, 12), z3.UGE(d, 1), z3.ULE(d, 31))
+    if kind == 'below':
+        return z3.Not(z3.And(rng, yt >= -69, yt <= -4))
+    return z3.Not(z3.And(rng, yt >= 52, yt <= 68))
